@@ -235,7 +235,7 @@ pub fn lex_plural_digit(src: &[char]) -> Option<FoundToken> {
     if l > i && src[i] == 's' {
         i += 1;
 
-        if l == i || !src[i].is_ascii_alphanumeric() {
+        if l == i || !src[i].is_alphanumeric() {
             return Some(FoundToken {
                 token: TokenKind::Word(None),
                 next_index: i,
